@@ -50,7 +50,7 @@ def obligations(sec, job, st):
                 loc = field_of(e[2])
                 if (loc, e[1]) in seen: continue
                 seen.add((loc, e[1]))
-                O.append(Obl('defined/%s' % loc, True, 'byte %d of %s comes from never-written memory (%s)' % (e[2], e[1], (e[4][0] + ' offset %d' % e[4][1]) if e[4] else 'unknown origin')))
+                O.append(Obl('defined/%s' % loc, True, 'byte %d of %s comes from never-written memory (%s)' % (e[2], e[1], (e[4][0] + ' offset %d' % e[4][1]) if e[4] else 'unknown origin'), cls='memory'))
     return O
 
 def run_job(engine, job):
